@@ -1,6 +1,7 @@
 From Coq Require Import ZArith List Bool String.
 From RRTK Require Import Num.Num Model.Values Model.Prog Model.MiniRust Model.Combinators Model.Streams Model.World Model.Devices
   Proofs.MiniRustEmb Proofs.DeviceProofs Proofs.ChainProofs.
+From Coq Require Import Lia.
 From Gen Require Import GenStreams.
 Import ListNotations.
 Local Open Scope string_scope.
@@ -182,6 +183,256 @@ Proof.
   unfold diff_update, diff_states.
   destruct d; destruct (state_get w sm), (state_get w s1), (state_get w s2); reflexivity.
 Qed.
+
+(* ---------------------------------------------------------------- Axle (any number of terminals) *)
+Definition b_upd : @mexpr F := ltac:(let t := eval cbv delta [g_axle_update] beta in (@g_axle_update F NF c) in
+  match t with ESeq (ETry (ECatch (ESeq (EForMut _ _ ?b) _))) _ => exact b end).
+Definition b_rs : @mexpr F := ltac:(let t := eval cbv delta [g_axle_update] beta in (@g_axle_update F NF c) in
+  match t with ESeq _ (ELet _ _ (ELet _ _ (ESeq (EFor _ _ ?b) _))) => exact b end).
+Definition b_ws : @mexpr F := ltac:(let t := eval cbv delta [g_axle_update] beta in (@g_axle_update F NF c) in
+  match t with ESeq _ (ELet _ _ (ELet _ _ (ESeq _ (ESeq (EIf _ (ESeq (ESeq _ (ESeq (EForMut _ _ ?b) _)) _) _) _)))) => exact b end).
+Definition b_rc : @mexpr F := ltac:(let t := eval cbv delta [g_axle_update] beta in (@g_axle_update F NF c) in
+  match t with ESeq _ (ELet _ _ (ELet _ _ (ESeq _ (ESeq _ (ELet _ _ (ESeq (EFor _ _ ?b) _)))))) => exact b end).
+Definition b_wc : @mexpr F := ltac:(let t := eval cbv delta [g_axle_update] beta in (@g_axle_update F NF c) in
+  match t with ESeq _ (ELet _ _ (ELet _ _ (ESeq _ (ESeq _ (ELet _ _ (ESeq _ (ESeq (EMatch _ [(_, ESeq (EForMut _ _ ?b) _); _]) _))))))) => exact b end).
+Definition L_inputs : lval := LField (LVar "self") "inputs".
+Definition axle_tpl : @mexpr F :=
+  ESeq (ETry (ECatch (ESeq (EForMut "i" L_inputs b_upd) (EOk EUnit))))
+    (ELet (PVar "count") (ELit (VI 0))
+      (ELet (PVar "datum") (EOp 37 [ELit (VT (-9223372036854775808)); ELit (VS (snew_raw fzero fzero fzero))])
+        (ESeq (EFor "i" (EVar "get:inputs:State") b_rs)
+          (ESeq (EIf (ECmp 3 (EVar "count") (ELit (VI 1)))
+                     (ESeq (ESeq (EOpAssign (LVar "datum") 8 (ECast true (EVar "count"))) (ESeq (EForMut "i" L_inputs b_ws) EUnit)) EUnit) EUnit)
+            (ELet (PVar "maybe_datum") ENone
+              (ESeq (EFor "i" (EVar "get:inputs:Command") b_rc)
+                (ESeq (EMatch (EVar "maybe_datum") [(PSome (PVar "datum"), ESeq (EForMut "i" L_inputs b_wc) EUnit); (PWild, EUnit)])
+                  (EOk EUnit)))))))).
+Lemma axle_shape : g_axle_update c = axle_tpl.
+Proof. reflexivity. Qed.
+
+
+Lemma upd_body s k en : flatten (eval c b_upd (("i", m_dterm s k) :: en)) = Ok (ONorm MTup0 (("i", m_dterm s k) :: en)).
+Proof. reflexivity. Qed.
+Lemma ws_body s k (d : ds) rest :
+  flatten (eval c b_ws (("i", m_dterm s k) :: ("datum", m_dat VS d) :: rest))
+  = Ok (ONorm MTup0 (("i", m_dterm (Some d) k) :: ("datum", m_dat VS d) :: rest)).
+Proof. reflexivity. Qed.
+Lemma wc_body s k (d : dc) rest :
+  flatten (eval c b_wc (("i", m_dterm s k) :: ("datum", m_dat VC d) :: rest))
+  = Ok (ONorm MTup0 (("i", m_dterm s (Some d)) :: ("datum", m_dat VC d) :: rest)).
+Proof. reflexivity. Qed.
+Lemma rs_body_some (d a : ds) n rest :
+  flatten (eval c b_rs (("i", m_rd VS (Some d)) :: ("datum", m_dat VS a) :: ("count", MV (VI n)) :: rest))
+  = Ok (ONorm MTup0 (("i", m_rd VS (Some d)) :: ("datum", m_dat VS (dstate_add a d)) :: ("count", MV (VI (n + 1))) :: rest)).
+Proof. destruct d as [td xd], a as [ta xa]. mr_norm. reflexivity. Qed.
+Lemma rs_body_none (a : ds) n rest :
+  flatten (eval c b_rs (("i", m_rd VS None) :: ("datum", m_dat VS a) :: ("count", MV (VI n)) :: rest))
+  = Ok (ONorm MTup0 (("i", m_rd VS None) :: ("datum", m_dat VS a) :: ("count", MV (VI n)) :: rest)).
+Proof. reflexivity. Qed.
+Definition base (S GS GC : @mval F) : @env F := [("self", S); ("get:inputs:State", GS); ("get:inputs:Command", GC)].
+Lemma rc_body (h m : option dc) Dv Cv S GS GC :
+  let rest := ("datum", Dv) :: ("count", Cv) :: base S GS GC in
+  flatten (eval c b_rc (("i", m_rd VC h) :: ("maybe_datum", m_opt (m_dat VC) m) :: rest))
+  = Ok (ONorm MTup0 (("i", m_rd VC h) :: ("maybe_datum", m_opt (m_dat VC) (fst (replace_if_none_or_older_than_option m h))) :: rest)).
+Proof. intros rest; subst rest. destruct h as [[th xh]|]; destruct m as [[tm xm]|]; unfold base; mr_exec. Qed.
+
+Definition T (t : option ds * option dc) : @mval F := m_dterm (fst t) (snd t).
+Definition m_axle (ts : list (option ds * option dc)) : @mval F := MRec [("inputs", MArr (map T ts))].
+
+Lemma flatten_formut x l body en items :
+  lval_get l en = Some (MArr items) ->
+  flatten (eval c (EForMut x l body) en) = flatten (for_mut (eval c body) x l [] items en).
+Proof. intros H. cbn [eval]. rewrite H. reflexivity. Qed.
+
+Lemma for_mut_rel (body : @mexpr F) l en : forall items items' done,
+  Forall2 (fun it it' => flatten (eval c body (("i", it) :: en)) = Ok (ONorm MTup0 (("i", it') :: en))) items items' ->
+  flatten (for_mut (eval c body) "i" l done items en)
+  = match lval_set l (MArr (rev done ++ items')) en with Some en' => Ok (ONorm MTup0 en') | None => Ok OType end.
+Proof.
+  induction items as [|it r IH]; intros items' done H; inversion H as [|? it' ? r' H1 H2]; subst; cbn [for_mut].
+  - destruct (lval_set l (MArr (rev done)) en) eqn:E; rewrite app_nil_r, E; reflexivity.
+  - rewrite flatten_tmap, H1. rewrite (IH r' (it' :: done) H2).
+    cbn [rev]. rewrite <- app_assoc. reflexivity.
+Qed.
+Lemma Forall2_map {A} (f g : A -> @mval F) (R : @mval F -> @mval F -> Prop) (l : list A) :
+  (forall a, R (f a) (g a)) -> Forall2 R (map f l) (map g l).
+Proof. intros H. induction l; cbn; constructor; auto. Qed.
+
+(* the two read loops *)
+Definition rs_step (acc : ds * Z) (g : option ds) : ds * Z :=
+  match g with Some d => (dstate_add (fst acc) d, snd acc + 1) | None => acc end.
+Lemma rs_loop (gs : list (option ds)) : forall (a : ds) n rest,
+  flatten (for_loop (eval c b_rs) "i" (map (m_rd VS) gs) (("datum", m_dat VS a) :: ("count", MV (VI n)) :: rest))
+  = Ok (ONorm MTup0 (("datum", m_dat VS (fst (fold_left rs_step gs (a, n)))) :: ("count", MV (VI (snd (fold_left rs_step gs (a, n))))) :: rest)).
+Proof.
+  induction gs as [|g r IH]; intros a n rest; [reflexivity|].
+  cbn [map for_loop fold_left]. rewrite flatten_tbind. destruct g as [d|].
+  - rewrite rs_body_some. cbn [skipn]. apply IH.
+  - rewrite rs_body_none. cbn [skipn]. apply IH.
+Qed.
+Definition rc_step (m h : option dc) : option dc := fst (replace_if_none_or_older_than_option m h).
+Lemma rc_loop (hs : list (option dc)) : forall (m : option dc) Dv Cv S GS GC,
+  let rest := ("datum", Dv) :: ("count", Cv) :: base S GS GC in
+  flatten (for_loop (eval c b_rc) "i" (map (m_rd VC) hs) (("maybe_datum", m_opt (m_dat VC) m) :: rest))
+  = Ok (ONorm MTup0 (("maybe_datum", m_opt (m_dat VC) (fold_left rc_step hs m)) :: rest)).
+Proof.
+  induction hs as [|h r IH]; intros m Dv Cv S GS GC rest; [reflexivity|].
+  cbn [map for_loop fold_left]. rewrite flatten_tbind. subst rest. rewrite rc_body. cbn [skipn]. apply IH.
+Qed.
+
+Definition D0 : ds := mkDatum (-9223372036854775808) (snew_raw fzero fzero fzero).
+Definition axle_state (gs : list (option ds)) : option ds :=
+  let acc := fold_left rs_step gs (D0, 0) in
+  if snd acc >=? 1 then Some (dstate_divf (fst acc) (f_of_Z (snd acc))) else None.
+Definition axle_cmd (hs : list (option dc)) : option dc := fold_left rc_step hs None.
+
+Lemma flatten_if_true cnd th el en en1 :
+  flatten (eval c cnd en) = Ok (ONorm (MV (VB true)) en1) -> flatten (eval c (EIf cnd th el) en) = flatten (eval c th en1).
+Proof. intros H. cbn [eval]. rewrite flatten_tbind, H. reflexivity. Qed.
+Lemma flatten_if_false cnd th el en en1 :
+  flatten (eval c cnd en) = Ok (ONorm (MV (VB false)) en1) -> flatten (eval c (EIf cnd th el) en) = flatten (eval c el en1).
+Proof. intros H. cbn [eval]. rewrite flatten_tbind, H. reflexivity. Qed.
+
+Lemma canon_T t : canon (T t) = T t.
+Proof. destruct t as [[[ts xs]|] [[tk xk]|]]; reflexivity. Qed.
+Lemma canon_axle ts : canon (m_axle ts) = m_axle ts.
+Proof.
+  unfold m_axle. cbn [canon]. do 4 f_equal.
+  induction ts as [|t r IH]; [reflexivity|]. cbn [map]. rewrite canon_T. f_equal. exact IH.
+Qed.
+
+Lemma cmp_count n en0 :
+  flatten (eval c (ECmp 3 (EVar "count") (ELit (VI 1))) (("datum", en0) :: ("count", MV (VI n)) :: []))
+  = Ok (ONorm (MV (VB (n >=? 1))) (("datum", en0) :: ("count", MV (VI n)) :: [])).
+Proof. reflexivity. Qed.
+
+Definition if_part : @mexpr F :=
+  EIf (ECmp 3 (EVar "count") (ELit (VI 1)))
+    (ESeq (ESeq (EOpAssign (LVar "datum") 8 (ECast true (EVar "count"))) (ESeq (EForMut "i" L_inputs b_ws) EUnit)) EUnit) EUnit.
+Lemma state_part ts (a : ds) n GS GC :
+  let w := if n >=? 1 then Some (dstate_divf a (f_of_Z n)) else None in
+  flatten (eval c if_part (("datum", m_dat VS a) :: ("count", MV (VI n)) :: base (m_axle ts) GS GC))
+  = Ok (ONorm MTup0 (("datum", m_dat VS (match w with Some d => d | None => a end)) :: ("count", MV (VI n))
+                     :: base (m_axle (map (fun t => (wr (fst t) w, snd t)) ts)) GS GC)).
+Proof.
+  intros w. unfold if_part. destruct (n >=? 1) eqn:Hc; subst w.
+  - erewrite flatten_if_true; [|cbn -[Z.geb]; rewrite Hc; reflexivity].
+    rewrite !flatten_seq.
+    assert (H1 : flatten (eval c (EOpAssign (LVar "datum") 8 (ECast true (EVar "count")))
+                            (("datum", m_dat VS a) :: ("count", MV (VI n)) :: base (m_axle ts) GS GC))
+                 = Ok (ONorm MTup0 (("datum", m_dat VS (dstate_divf a (f_of_Z n))) :: ("count", MV (VI n)) :: base (m_axle ts) GS GC))) by reflexivity.
+    rewrite H1. cbn [after]. rewrite flatten_seq.
+    erewrite flatten_formut by reflexivity.
+    erewrite for_mut_rel; [|apply (Forall2_map T (fun t => T (Some (dstate_divf a (f_of_Z n)), snd t))); intros [s k]; apply ws_body].
+    cbn [after]. unfold m_axle. rewrite map_map. reflexivity.
+  - erewrite flatten_if_false; [|cbn -[Z.geb]; rewrite Hc; reflexivity].
+    replace (map (fun t : option ds * option dc => (wr (fst t) None, snd t)) ts) with ts; [reflexivity|].
+    induction ts as [|[s k] r IH]; [reflexivity|]. cbn [map wr fst snd]. f_equal. exact IH.
+Qed.
+Definition cmd_part : @mexpr F :=
+  ELet (PVar "maybe_datum") ENone
+    (ESeq (EFor "i" (EVar "get:inputs:Command") b_rc)
+      (ESeq (EMatch (EVar "maybe_datum") [(PSome (PVar "datum"), ESeq (EForMut "i" L_inputs b_wc) EUnit); (PWild, EUnit)])
+        (EOk EUnit))).
+Lemma cmd_part_ok ts (hs : list (option dc)) Dv Cv GS :
+  let GC := MArr (map (m_rd VC) hs) in
+  flatten (eval c cmd_part (("datum", Dv) :: ("count", Cv) :: base (m_axle ts) GS GC))
+  = Ok (ONorm (MOk MTup0) (("datum", Dv) :: ("count", Cv) :: base (m_axle (map (fun t => (fst t, wr (snd t) (axle_cmd hs))) ts)) GS GC)).
+Proof.
+  intros GC. unfold cmd_part. rewrite flatten_let.
+  match goal with |- context [flatten (eval c ENone ?en)] => change (flatten (eval c ENone en)) with (Ok (ONorm (@MNone F) en)) end.
+  cbn [after]. rewrite flatten_seq.
+  erewrite flatten_for by reflexivity.
+  pose proof (rc_loop hs None Dv Cv (m_axle ts) GS GC) as HL. cbn zeta in HL. change (m_opt (m_dat VC) (@None dc)) with (@MNone F) in HL. rewrite HL. clear HL.
+  cbn [after]. fold (axle_cmd hs).
+  rewrite flatten_seq.
+  destruct (axle_cmd hs) as [d|] eqn:Hm.
+  - assert (HM : flatten (eval c (EMatch (EVar "maybe_datum") [(PSome (PVar "datum"), ESeq (EForMut "i" L_inputs b_wc) EUnit); (PWild, EUnit)])
+                           (("maybe_datum", m_opt (m_dat VC) (Some d)) :: ("datum", Dv) :: ("count", Cv) :: base (m_axle ts) GS GC))
+                 = Ok (ONorm MTup0 (("maybe_datum", m_opt (m_dat VC) (Some d)) :: ("datum", Dv) :: ("count", Cv)
+                                    :: base (m_axle (map (fun t => (fst t, Some d)) ts)) GS GC))).
+    { cbn [eval]. rewrite flatten_tbind. cbn [lookup String.eqb Ascii.eqb Bool.eqb opt_leaf flatten m_opt].
+      cbn [eval_arms pmatch tmap]. rewrite flatten_tbind.
+      cbn [app]. rewrite flatten_seq.
+      erewrite flatten_formut by reflexivity.
+      erewrite for_mut_rel; [|apply (Forall2_map T (fun t => T (fst t, Some d))); intros [s k]; apply wc_body].
+      cbn [after]. unfold m_axle. rewrite map_map. reflexivity. }
+    rewrite HM. cbn [after].
+    replace (map (fun t : option ds * option dc => (fst t, wr (snd t) (Some d))) ts) with (map (fun t : option ds * option dc => (fst t, Some d)) ts)
+      by (apply map_ext; intros [s k]; reflexivity).
+    reflexivity.
+  - replace (map (fun t : option ds * option dc => (fst t, wr (snd t) None)) ts) with ts
+      by (induction ts as [|[s k] r IH]; [reflexivity|]; cbn [map wr fst snd]; f_equal; exact IH).
+    reflexivity.
+Qed.
+
+Theorem C08_gen_axle_update (ts : list (option ds * option dc)) (gs : list (option ds)) (hs : list (option dc)) :
+  run_fn c (g_axle_update c) (m_axle ts) [("get:inputs:State", MArr (map (m_rd VS) gs)); ("get:inputs:Command", MArr (map (m_rd VC) hs))]
+  = Some (Ok (m_axle (map (fun t => (wr (fst t) (axle_state gs), wr (snd t) (axle_cmd hs))) ts), MOk MTup0)).
+Proof.
+  unfold run_fn. rewrite axle_shape. unfold axle_tpl.
+  set (GS := MArr (map (m_rd VS) gs)). set (GC := MArr (map (m_rd VC) hs)).
+  change (("self", m_axle ts) :: [("get:inputs:State", GS); ("get:inputs:Command", GC)]) with (base (m_axle ts) GS GC).
+  rewrite flatten_seq.
+  (* update_terminals: nothing is followed *)
+  assert (HA : flatten (eval c (ETry (ECatch (ESeq (EForMut "i" L_inputs b_upd) (EOk EUnit)))) (base (m_axle ts) GS GC))
+               = Ok (ONorm MTup0 (base (m_axle ts) GS GC))).
+  { cbn [eval]. rewrite flatten_tbind, flatten_tmap, flatten_tbind.
+    change (match lval_get L_inputs (base (m_axle ts) GS GC) with Some (MArr items) => _ | _ => _ end)
+      with (for_mut (eval c b_upd) "i" L_inputs [] (map T ts) (base (m_axle ts) GS GC)).
+    erewrite for_mut_rel; [|apply (Forall2_map T T); intros [s k]; apply upd_body].
+    reflexivity. }
+  rewrite HA. cbn [after].
+  rewrite flatten_let.
+  match goal with |- context [flatten (eval c (ELit (VI 0)) ?en)] => change (flatten (eval c (ELit (VI 0)) en)) with (Ok (ONorm (@MV F (VI 0)) en)) end.
+  cbn [after]. rewrite flatten_let.
+  match goal with |- context [flatten (eval c (EOp 37 ?a) ?en)] => change (flatten (eval c (EOp 37 a) en)) with (Ok (ONorm (m_dat VS D0) en)) end.
+  cbn [after]. rewrite flatten_seq.
+  erewrite flatten_for by reflexivity.
+  rewrite rs_loop. cbn [after].
+  rewrite flatten_seq.
+  fold if_part. rewrite state_part. cbn [after].
+  fold cmd_part. subst GC. rewrite cmd_part_ok. cbn [after skipn].
+  unfold finish, base. cbn [List.length Nat.sub skipn lookup String.eqb Ascii.eqb Bool.eqb].
+  rewrite canon_axle. rewrite map_map. cbn [fst snd canon]. unfold axle_state. reflexivity.
+Qed.
+
+(* the world-level model of Model/Devices.v is the local functions applied to what the terminals read *)
+Lemma fold_left_map_l {A B C} (f : A -> B -> A) (g : C -> B) (l : list C) : forall a,
+  fold_left f (map g l) a = fold_left (fun a x => f a (g x)) l a.
+Proof. induction l as [|x r IH]; intros a; [reflexivity|]. cbn [map fold_left]. apply IH. Qed.
+Lemma fold_left_ext_in {A B} (f g : A -> B -> A) (l : list B) : (forall a x, f a x = g a x) -> forall a, fold_left f l a = fold_left g l a.
+Proof. intros H. induction l as [|x r IH]; intros a; [reflexivity|]. cbn [fold_left]. rewrite H. apply IH. Qed.
+Lemma fold_put_cmd_none (ts : list nat) : forall w : world, fold_left (fun w' i => put_cmd w' i None) ts w = w.
+Proof. induction ts as [|t r IH]; intros w; [reflexivity|]. cbn [fold_left put_cmd]. apply IH. Qed.
+Lemma fold_put_state_none (ts : list nat) : forall w : world, fold_left (fun w' i => put_state w' i None) ts w = w.
+Proof. induction ts as [|t r IH]; intros w; [reflexivity|]. cbn [fold_left put_state]. apply IH. Qed.
+Lemma axle_update_local (w : world) (ts : list nat) :
+  axle_update w ts
+  = let st := axle_state (map (state_get w) ts) in
+    let w1 := fold_left (fun w' i => put_state w' i st) ts w in
+    let cm := axle_cmd (map (cmd_get w) ts) in
+    fold_left (fun w' i => put_cmd w' i cm) ts w1.
+Proof.
+  unfold axle_update, axle_state, axle_cmd. cbv zeta. rewrite !fold_left_map_l.
+  change (fold_left (fun (a : ds * Z) (x : nat) => rs_step a (state_get w x)) ts (D0, 0))
+    with (fold_left (fun (a : ds * Z) i => match state_get w i with Some g => (dstate_add (fst a) g, snd a + 1) | None => a end) ts
+            (mkDatum (-9223372036854775808) (snew_raw fzero fzero fzero), 0)).
+  set (acc := fold_left _ ts (_, 0)).
+  destruct (snd acc >=? 1).
+  - set (d := dstate_divf (fst acc) (f_of_Z (snd acc))).
+    change (fold_left (fun w' i => put_state w' i (Some d)) ts w) with (fold_left (fun w' i => set_state w' i d) ts w).
+    set (w1 := fold_left (fun w' i => set_state w' i d) ts w).
+    assert (Hc : forall i, cmd_get w1 i = cmd_get w i) by (intros i; apply ceq_cmd_get, ceq_fold_set_state).
+    rewrite (fold_left_ext_in (fun m i => fst (replace_if_none_or_older_than_option m (cmd_get w1 i))) (fun m x => rc_step m (cmd_get w x)))
+      by (intros m i; rewrite Hc; reflexivity).
+    destruct (fold_left _ ts None) as [dc0|]; [reflexivity|].
+    rewrite fold_put_cmd_none. reflexivity.
+  - rewrite fold_put_state_none.
+    change (fun m i => fst (replace_if_none_or_older_than_option m (cmd_get w i))) with (fun m x => rc_step m (cmd_get w x)).
+    destruct (fold_left _ ts None) as [dc0|]; [reflexivity|].
+    rewrite fold_put_cmd_none. reflexivity.
+Qed.
 End C08Devices.
 Print Assumptions C08_gen_invert_update.
 Print Assumptions invert_update_local.
@@ -190,3 +441,28 @@ Print Assumptions gear_update_local.
 Print Assumptions C08_gen_diff_update.
 Print Assumptions diff_update_local.
 Print Assumptions cmd_get_put_state.
+Print Assumptions C08_gen_axle_update.
+Print Assumptions axle_update_local.
+Print Assumptions axle_shape.
+Print Assumptions upd_body.
+Print Assumptions ws_body.
+Print Assumptions wc_body.
+Print Assumptions rs_body_some.
+Print Assumptions rs_body_none.
+Print Assumptions rc_body.
+Print Assumptions flatten_formut.
+Print Assumptions for_mut_rel.
+Print Assumptions Forall2_map.
+Print Assumptions rs_loop.
+Print Assumptions rc_loop.
+Print Assumptions flatten_if_true.
+Print Assumptions flatten_if_false.
+Print Assumptions canon_T.
+Print Assumptions canon_axle.
+Print Assumptions cmp_count.
+Print Assumptions state_part.
+Print Assumptions cmd_part_ok.
+Print Assumptions fold_left_map_l.
+Print Assumptions fold_left_ext_in.
+Print Assumptions fold_put_cmd_none.
+Print Assumptions fold_put_state_none.
